@@ -216,6 +216,13 @@ def find_in_scope(
         # Filter children by only_list
         if len(use_info.only_list) > 0 and var_name_lower not in use_info.only_list:
             continue
+        # An entity renamed by a USE without ONLY is not accessible by its own name
+        if (
+            len(use_info.only_list) == 0
+            and var_name_lower not in use_info.rename_map
+            and var_name_lower in use_info.rename_map.values()
+        ):
+            continue
         mod_name = use_info.rename_map.get(var_name_lower, var_name_lower)
         tmp_var = check_scope(use_scope, mod_name, filter_public=True)
         if tmp_var is not None:
